@@ -5,7 +5,7 @@
     The tables ([c15_uid_tables], ...) are assembled here from the plain definitions that
     harness/tables_c15.py regenerates into Gen/Tables.v on every run. *)
 From Coq Require Import ZArith List Bool.
-From TM Require Import Codec.BaseN Codec.Dec Codec.Event Codec.Rule Gen.Tables.
+From TM Require Import Codec.BaseN Codec.Dec Codec.Event Codec.Rule Codec.Json Codec.Ldap Gen.Tables.
 Import ListNotations.
 Open Scope Z_scope.
 
@@ -77,6 +77,46 @@ Definition frule (r : rule) : list Z :=
   end.
 Definition fchain_rule (cr : str * rule) : list Z := fstr (fst cr) ++ frule (snd cr).
 
+Fixpoint fvalue (v : value) : list Z :=
+  match v with
+  | VNull => [0]
+  | VBool b => [1; if b then 1 else 0]
+  | VInt z => [2; z]
+  | VStr s => 3 :: fstr s
+  | VList l => 4 :: zlen l :: flat_map fvalue l
+  | VDict d => 5 :: zlen d :: flat_map (fun kv => fstr (fst kv) ++ fvalue (snd kv)) d
+  end.
+Definition fdecoded (d : zdecoded) : list Z :=
+  match d with DVal v => 0 :: fvalue v | DYaml => [1] | DUnmodelled => [2] end.
+
+(** the generated LDAP schema of the given name ([] if absent or with an unknown type code) *)
+Definition c15_ldap_schema (name : str) : schema :=
+  match alookup c15_ldap_schemas name with
+  | Some rows => match conv_schema rows with Some s => s | None => [] end
+  | None => []
+  end.
+
+Definition ffval (v : fval) : list Z :=
+  match v with
+  | FNone => [0]
+  | FStr s => 1 :: fstr s
+  | FInt z => [2; z]
+  | FBool b => [3; if b then 1 else 0]
+  | FStrs l => 4 :: zlen l :: flat_map (fun s => 1 :: fstr s) l
+  | FInts l => 4 :: zlen l :: flat_map (fun z => [2; z]) l
+  | FDict d => 5 :: fvalue (VDict d)
+  end.
+Definition fobj (o : obj) : list Z := zlen o :: flat_map (fun kv => fstr (fst kv) ++ ffval (snd kv)) o.
+Definition feval (v : eval) : list Z := match v with EStr s => 1 :: fstr s | EBool b => [3; if b then 1 else 0] end.
+Definition fentry (e : entry) : list Z :=
+  zlen e :: flat_map (fun kv => fstr (fst kv) ++ zlen (snd kv) :: flat_map feval (snd kv)) e.
+Definition fmods (ms : mods) : list Z :=
+  zlen ms :: flat_map (fun m => fstr (fst m) ++ match snd m with
+                                                 | MAdd vs => 0 :: zlen vs :: flat_map feval vs
+                                                 | MReplace vs => 1 :: zlen vs :: flat_map feval vs
+                                                 | MDelete => [2]
+                                                 end) ms.
+
 Inductive c15case :=
 | CBaseN (al : option str) (base : option Z) (n : Z)       (* to_base_n, then from_base_n of its result *)
 | CBaseNDec (al : option str) (base : option Z) (s : str)  (* from_base_n on an arbitrary string *)
@@ -88,7 +128,12 @@ Inductive c15case :=
 | CNode (id when host ty d : str)                          (* publish -> node name -> TraceLoop._process_events *)
 | CNodeDec (name : str)                                    (* TraceLoop._process_events on an arbitrary node name *)
 | CRule (chain : str) (r : rule)                           (* RuleMgr._filenameify, then get_rule of its result *)
-| CRuleDec (name : str).                                   (* RuleMgr.get_rule on an arbitrary file name *)
+| CRuleDec (name : str)                                    (* RuleMgr.get_rule on an arbitrary file name *)
+| CZk (d : zdata)                                          (* zkutils._payload, then get_with_metadata of it *)
+| CZkDec (payload : str)                                   (* get_with_metadata on arbitrary (ASCII) bytes *)
+| CLdap (schema_name : str) (o : obj)                      (* _dict_2_entry, _remove_empty, _entry_2_dict *)
+| CLdapDec (schema_name : str) (e : entry)                 (* _entry_2_dict on an arbitrary entry *)
+| CDiff (old new : entry).                                 (* _diff_entries *)
 
 Definition run_case (c : c15case) : list Z :=
   let T := c15_uid_tables in
@@ -129,4 +174,18 @@ Definition run_case (c : c15case) : list Z :=
       | Some name => 0 :: fstr name ++ fopt fchain_rule (get_rule c15_rule_tables name)
       end
   | CRuleDec name => fopt fchain_rule (get_rule c15_rule_tables name)
+  | CZk d =>
+      match zk_payload d with
+      | None => [E_OTHER]
+      | Some p => 0 :: fstr p ++ fdecoded (zk_decode p)
+      end
+  | CZkDec p => fdecoded (zk_decode p)
+  | CLdap name o =>
+      let sch := c15_ldap_schema name in
+      match dict_2_entry sch o [] with
+      | None => [E_OTHER]
+      | Some e => 0 :: fentry e ++ fres fobj (entry_2_dict sch (remove_empty e))
+      end
+  | CLdapDec name e => fres fobj (entry_2_dict (c15_ldap_schema name) e)
+  | CDiff old new => fmods (diff_entries old new)
   end.
